@@ -739,7 +739,7 @@ def s_neg(ex, st, fr, args, info):
 
 # ---------------------------------------------------------------------------------------------- more library surface
 # (added so that realistic refactorings of the code under test still execute instead of ending inconclusive)
-@summary('slice::chunks_exact', 'slice::chunks')
+@summary('slice::chunks_exact', 'slice::chunks', 'slice::chunks_exact_mut', 'slice::chunks_mut')
 def s_slice_chunks(ex, st, fr, args, info):
     r = args[0]; k = ex.conc_int(st, args[1])
     if k == 0: lib_panic(ex, st, fr, 'chunk size must be non-zero')
@@ -748,7 +748,7 @@ def s_slice_chunks(ex, st, fr, args, info):
     i = 0
     while i + k <= n:
         out.append(Ref(r.loc, (base + i, k))); i += k
-    if info['method'] == 'chunks' and i < n:
+    if info['method'] in ('chunks', 'chunks_mut') and i < n:
         out.append(Ref(r.loc, (base + i, n - i)))
     return It('list', tuple(out), 0)
 
@@ -833,7 +833,7 @@ def s_fill(ex, st, fr, args, info):
     return UNIT
 
 
-@summary('slice::split_at')
+@summary('slice::split_at', 'slice::split_at_mut')
 def s_split_at(ex, st, fr, args, info):
     r = args[0]; k = ex.conc_int(st, args[1]); n = ex.slice_len(st, r); base = r.rng[0] if r.rng else 0
     if k > n: lib_panic(ex, st, fr, 'mid > len')
